@@ -66,6 +66,10 @@ type kase struct {
 	Stream []string `json:"stream"`      // frame kinds, see tMsg / rSpec
 	Cuts   []int    `json:"cuts"`        // planned cut positions (byte offsets inside the stream)
 	Trunc  int      `json:"truncate_at"` // -1: whole stream; else the stream ends (EOF) after that many bytes
+	// EOFData: generic path only: the reader hands over the last bytes of the
+	// stream TOGETHER with io.EOF (allowed by io.Reader) instead of reporting
+	// EOF on the next Read.
+	EOFData bool `json:"eof_with_last_data,omitempty"`
 }
 
 // ---------------------------------------------------------------------------
@@ -162,6 +166,25 @@ func (l *pipeLink) WriteSeg(b []byte, cuts []int) (int, error) {
 		return 0, nil
 	}
 	_, err := l.peer.Write(b)
+	return n, err
+}
+
+// WriteSegEOF is WriteSeg + CloseWrite in one step, with the last bytes
+// delivered together with io.EOF.
+func (l *pipeLink) WriteSegEOF(b []byte, cuts []int) (int, error) {
+	l.peer.W.EOFWithData = true
+	base := len(l.peer.W.Written)
+	l.mu.Lock()
+	l.plan = append(l.plan[:0], base)
+	for _, c := range cuts {
+		if c > 0 && c < len(b) {
+			l.plan = append(l.plan, base+c)
+		}
+	}
+	n := len(l.plan)
+	l.plan = append(l.plan, base+len(b))
+	l.mu.Unlock()
+	_, err := l.peer.W.WriteAndCloseWrite(b)
 	return n, err
 }
 func (l *pipeLink) ReadFrame() ([]byte, error) { return l.fr.next() }
@@ -707,7 +730,13 @@ func runServer(k kase) *obs {
 		if k.Trunc >= 0 {
 			data = data[:k.Trunc]
 		}
-		segs, err := l.WriteSeg(data, k.Cuts)
+		var segs int
+		var err error
+		if pl, ok := l.(*pipeLink); ok && k.EOFData {
+			segs, err = pl.WriteSegEOF(data, k.Cuts)
+		} else {
+			segs, err = l.WriteSeg(data, k.Cuts)
+		}
 		o.segs = segs
 		if err != nil {
 			o.Problems = append(o.Problems, fmt.Sprintf("delivering the stream: %v", err))
@@ -1567,6 +1596,15 @@ func run(ctx *fw.Ctx, rep *fw.Report) {
 						return
 					}
 					c.one(kase{Dir: dir, Path: path, Stream: st, Cuts: cuts, Trunc: -1}, info)
+				}
+				if dir == dirServer && path == pathGeneric {
+					// the same complete stream, its last bytes handed over together with io.EOF
+					for _, cuts := range [][]int{nil, all} {
+						idx++
+						if ctx.Mine(idx) {
+							c.one(kase{Dir: dir, Path: path, Stream: st, Cuts: cuts, Trunc: -1, EOFData: true}, info)
+						}
+					}
 				}
 				for t := 0; t < L; t++ {
 					// A frame p9 rejects from its header alone (unknown type, body
